@@ -277,6 +277,57 @@ func Small(depth, width int) [][]*Stmt {
 	return res
 }
 
+// SmallRandom: a random member of the same reduced grammar at a larger nesting depth (the exhaustive
+// set explodes beyond depth 1)
+func SmallRandom(r *rand.Rand, depth, width int) []*Stmt {
+	type ctx struct{ inLoop, inSwitch bool }
+	var list func(d int, c ctx) []*Stmt
+	var stmt func(d int, c ctx) *Stmt
+	stmt = func(d int, c ctx) *Stmt {
+		for {
+			switch k := r.Intn(12); {
+			case k == 0:
+				return &Stmt{K: Act}
+			case k <= 2:
+				return &Stmt{K: Yield}
+			case k == 3:
+				return &Stmt{K: Ret}
+			case k == 4 && (c.inLoop || c.inSwitch):
+				return &Stmt{K: Break}
+			case k == 5 && c.inLoop:
+				return &Stmt{K: Continue}
+			case k == 6 && d > 0:
+				return &Stmt{K: If, Cond: 0, Body: list(d-1, c)}
+			case k == 7 && d > 0:
+				return &Stmt{K: For, Cond: 0, Body: list(d-1, ctx{true, false})}
+			case k == 8 && d > 0:
+				return &Stmt{K: For, Cond: 0, Post: &Stmt{K: Yield}, Body: list(d-1, ctx{true, false})}
+			case k >= 9 && d > 0:
+				return &Stmt{K: Switch, Tag: 0, Cases: []*Case{{Ks: []int{0}, Body: list(d-1, ctx{c.inLoop, true})}}}
+			}
+		}
+	}
+	list = func(d int, c ctx) []*Stmt {
+		n := r.Intn(width + 1)
+		var out []*Stmt
+		for i := 0; i < n; i++ {
+			out = append(out, stmt(d, c))
+		}
+		return out
+	}
+	for {
+		l := list(depth, ctx{})
+		if len(l) == 0 || !containsYield(l) {
+			continue
+		}
+		body := renumber(l)
+		if body[len(body)-1].K != Ret {
+			body = append(body, &Stmt{K: Ret})
+		}
+		return body
+	}
+}
+
 // renumber: deep copy giving every atom a fresh id
 func renumber(ss []*Stmt) []*Stmt {
 	n := 0
